@@ -817,9 +817,12 @@ class TLSConnection(TLSRecordLayer):
 
             # add info on types of PSKs supported (also used for
             # NewSessionTicket so send basically always)
-            ext = PskKeyExchangeModesExtension().create(
-                [getattr(PskKeyExchangeMode, i) for i in settings.psk_modes])
-            extensions.append(ext)
+            # (an empty list - no PSK mode wanted - is not a valid extension)
+            if settings.psk_modes:
+                ext = PskKeyExchangeModesExtension().create(
+                    [getattr(PskKeyExchangeMode, i)
+                     for i in settings.psk_modes])
+                extensions.append(ext)
 
         groups = []
         # in TLS 1.3 every handshake uses the groups, whatever the TLS 1.2
